@@ -368,7 +368,7 @@ def check(run):
         "dicts) with falsy values, repeated list elements, embedded objects, nested custom content and prefix-related "
         "property names; for each object every path of its value tree (capped at 60) plus near-miss selectors; each "
         "(object, selector) goes through validate, the six marking functions and methods, and construction/parse with "
-        "the selector in a granular marking; plus a deterministic per-class pass (every class template x version x "
+        "the selector in a granular marking (once as a marking_ref marking, once as a language marking); plus a deterministic per-class pass (every class template x version x "
         "class/parse x with/without extensions) and a fifth of the objects again under TZ=JST-9 / PYTHONHASHSEED=7. "
         "An (object, selector) evaluation is non-trivial when the selector is a "
         "real path of the object or a near miss derived from one (all but the four fixed junk selectors).")
